@@ -123,7 +123,21 @@ def lib():
         E = h.ExternalModule(name="LibW2", port_list=[h.Inout(name="x", width=2), h.Inout(name="y", width=2)], desc="", domain="lib")
         m.e = E()(x=m.inp.b, y=m.out.b)
         return m
-    _LIB.update(LibInv=LibInv, LibStage=LibStage, Pair2=Pair2)
+    from typing import Optional
+
+    @h.paramclass
+    class LT:
+        k = h.Param(dtype=int, desc="k", default=1)
+        tag = h.Param(dtype=Optional[str], desc="free-text revision tag", default=None)
+        note = h.Param(dtype=Optional[str], desc="another", default=None)
+
+    @h.generator
+    def LibTagged(p: LT) -> h.Module:
+        m = h.Module()
+        m.a, m.b = h.Port(), h.Port()
+        m.r = h.R(r=p.k)(p=m.a, n=m.b)
+        return m
+    _LIB.update(LibInv=LibInv, LibStage=LibStage, Pair2=Pair2, LibTagged=LibTagged)
     return _LIB
 
 
@@ -155,6 +169,32 @@ def extra_designs():
         T.s3.out = T.last
         return T
     yield ("det/history/shared-cell/bundle-ports-by-portref", shared_stage_by_portref)
+
+    def tagged_cells():
+        # a library cell with optional free-text parameters: earlier work in the process used it with the text unset
+        T = h.Module(name="TaggedTop")
+        T.a, T.b = h.Signals(2)
+        for k, (tag, note) in enumerate((("rev b", None), (None, "a=b"), ("None", None), ("plain", None), (None, None),
+                                         ("x", "two words"), ("", "="))):
+            T.add(lib()["LibTagged"](k=3, tag=tag, note=note)(a=T.a, b=T.b), name=f"t{k}")
+        return T
+    yield ("det/history/shared-cell/optional-text-params", tagged_cells)
+
+    def stacks():
+        # built-in generators over units with several parallel ports (gate and bulk; five in the custom unit)
+        from hdl21.generators import Series, MosStack
+        U5 = h.Module(name="Unit5")
+        U5.i, U5.o = h.Input(), h.Output()
+        U5.p1, U5.p2, U5.p3, U5.p4, U5.p5 = h.Port(), h.Port(), h.Port(width=2), h.Port(), h.Port()
+        U5.r = h.R(r=1)(p=U5.i, n=U5.o)
+        T = h.Module(name="StackTop")
+        T.a, T.b, T.c, T.d = h.Signals(4)
+        T.w2 = h.Signal(width=2)
+        T.m3 = MosStack(unit=h.Nmos(), nser=3)(d=T.a, g=T.b, s=T.c, b=T.d)
+        T.m2 = MosStack(unit=h.Pmos(w=2 * h.prefix.µ), nser=2)(d=T.a, g=T.b, s=T.c, b=T.d)
+        T.s4 = Series(unit=U5, conns=("i", "o"), nser=4)(i=T.a, o=T.b, p1=T.c, p2=T.d, p3=T.w2, p4=T.c, p5=T.d)
+        return T
+    yield ("det/history/stacks-with-parallel-ports", stacks)
 
     def set_valued_params():
         # generator parameters holding sets (no order of their own): the generated names must not follow iteration order
@@ -350,6 +390,7 @@ def unrelated_work(rnd, rounds):
             for k in (1, 2):
                 U.add(L["LibInv"](k=k)(i=U.a, o=U.b, vdd=U.vdd, vss=U.vss), name=f"inv{k}")
                 U.add(L["LibStage"](k=k)(inp=U.p, out=U.q), name=f"st{k}")
+            U.add(L["LibTagged"](k=rd + 1)(a=U.a, b=U.b), name="tg")           # the optional text fields left unset
             h.netlist(U, io.StringIO(), fmt="spice") if rd else h.to_proto(U)
         except Exception:
             pass
